@@ -1231,6 +1231,11 @@ func (w *world) doWrite(c *cont, op Op) error {
 	} else {
 		if env {
 			w.info.Class("owner-write-environment-failure")
+		} else if attempted && !faulted && (lr.Lease == 0 || lr.Lease != c.lease) && (werr != nil || !applied) {
+			// the record carries this member's value but is not on its current lease (written out of band,
+			// or a stale record of an earlier term): the property does not say such a member must be served,
+			// a guard that also compares the lease may refuse it. Counted, not claimed.
+			w.info.Class("owner-by-value-on-another-lease-refused:" + op.W)
 		} else if attempted && !faulted && (c.campaigned || !guardedKind(op.W)) {
 			if werr != nil || !applied {
 				return fmt.Errorf("%s, the owner of the record, failed without injected fault: %v (applied %v)", who, werr, applied)
